@@ -608,7 +608,12 @@ func parseHrdParameters(r *bits.EBSPReader,
 
 		if !hp.SubLayerHrd[i].LowDelayHrdFlag {
 			// value shall be in the range of 0 to 31, inclusive
-			hp.SubLayerHrd[i].CpbCntMinus1 = uint8(r.ReadExpGolomb())
+			cpbCntMinus1 := r.ReadExpGolomb()
+			if cpbCntMinus1 > 31 {
+				r.SetError(fmt.Errorf("cpb_cnt_minus1 is %d, but must be in range 0 to 31", cpbCntMinus1))
+				return hp
+			}
+			hp.SubLayerHrd[i].CpbCntMinus1 = uint8(cpbCntMinus1)
 		}
 		if hp.NalHrdParametersPresentFlag {
 			hp.SubLayerHrd[i].NalHrdParameters = parseSubLayerHrdParameters(r,
@@ -698,6 +703,7 @@ func parseShortTermRPS(r *bits.EBSPReader, idx, numSTRefPicSets byte, sps *SPS) 
 		}
 		if deltaIdx > idx {
 			r.SetError(fmt.Errorf("deltaIdx > idx in parseShortTermRPS"))
+			return stps
 		}
 		/* deltaRpsSign */ _ = r.Read(1)
 		/* absDeltaRpsMinus1*/ _ = r.ReadExpGolomb()
@@ -811,12 +817,18 @@ func parseSPSSccExtension(r *bits.EBSPReader, ChromaFormatIDC,
 			ext.PalettePredictorInitializer = make([][]uint, numComps)
 			// Fill luma
 			for i := uint(0); i <= ext.NumPalettePredictorInitializersMinus1; i++ {
+				if r.AccError() != nil {
+					break
+				}
 				ext.PalettePredictorInitializer[0] =
 					append(ext.PalettePredictorInitializer[0], r.Read(int(BitDepthLumaMinus8+8)))
 			}
 			// Fill chroma if any
 			for comp := 1; comp < numComps; comp++ {
 				for i := uint(0); i <= ext.NumPalettePredictorInitializersMinus1; i++ {
+					if r.AccError() != nil {
+						break
+					}
 					ext.PalettePredictorInitializer[comp] =
 						append(ext.PalettePredictorInitializer[comp], r.Read(int(BitDepthChromaMinus8+8)))
 				}
